@@ -483,12 +483,19 @@ def flow(w):
 # --------------------------------------------------------------------------
 # implementation run
 
+_RUNS = {"n": 0}
+
+
 def impl_graph(lang: Lang, expr):
     """from/internal/via triples of TransformationGraph.add_expr + returned node."""
     from rdflib import BNode
     from transforge.graph import TransformationGraph
     from transforge.namespace import TF
-    g = TransformationGraph(lang.language, minimal=True, with_operators=True)
+    # the data-flow triples do not depend on what else the graph records: every other
+    # run also records tf:depends (add_from then maintains the closure alongside)
+    _RUNS["n"] += 1
+    g = TransformationGraph(lang.language, minimal=True, with_operators=True,
+        with_dependencies=_RUNS["n"] % 2 == 0)
     root = BNode()
     r = g.add_expr(expr, root)
     ns = lang.language.namespace
@@ -771,17 +778,17 @@ def enum_terms(lang_ops, T, depth, nsrc, cache):
 # one case: build, run, observe
 
 class Case:
-    __slots__ = ("lang", "term", "nsrc", "name", "w", "impl", "impl_error", "dom", "text", "keep")
+    __slots__ = ("lang", "term", "nsrc", "name", "w", "impl", "impl_error", "dom", "text", "keep", "deps")
 
     def __init__(self, lang, term, nsrc, name):
         self.lang, self.term, self.nsrc, self.name = lang, term, nsrc, name
 
     def payload(self):
         return {"language": self.lang.to_json(), "term": self.term, "term_text": term_text(self.term),
-                "nsrc": self.nsrc, "name": self.name,
+                "nsrc": self.nsrc, "name": self.name, "with_dependencies": getattr(self, "deps", None),
                 "how_to_rebuild": "operators as listed (composite ones with the given body over parameters p0..), "
                                   "one Source(A) per s<k>; build the term by calling the operators, then .primitive(); "
-                                  "TransformationGraph(lang, minimal=True, with_operators=True).add_expr(expr, BNode())"}
+                                  "TransformationGraph(lang, minimal=True, with_operators=True[, with_dependencies=True]).add_expr(expr, BNode())"}
 
 
 def run_impl(case: Case) -> str | None:
@@ -809,6 +816,7 @@ def run_impl(case: Case) -> str | None:
     case.text = wexpr_text(w)
     case.dom = in_domain(w)
     case.impl, case.impl_error = None, None
+    case.deps = (_RUNS["n"] + 1) % 2 == 0
     try:
         case.impl = impl_graph(lang, e)
     except AssertionError as ex:
@@ -1026,6 +1034,7 @@ def do_replay(rep: C.Report, path: str) -> int:
     lang = Lang.from_json(d["language"])
     case = Case(lang, term_from_json(d["term"]), d.get("nsrc", 2), d.get("name", "replay"))
     lang.build()
+    _RUNS["n"] = 1 if d.get("with_dependencies") else 0      # the run under replay uses the recorded flag
     why = run_impl(case)
     if why is not None:
         print(f"replay: case not usable ({why}): {d.get('term_text')}")
